@@ -643,6 +643,22 @@ fn run_history(rng: &mut Rng, mode: &str, _k: usize) -> String {
     nucleo::verif::set_callback(None);
     let evs = h.ev.join(";");
     drop(h);
+    // The pool thread that ran the last job still owns a handle to the worker (and through it to the stream) for a
+    // moment after `Nucleo::drop` has returned: it releases the worker's lock first and its `Arc` afterwards.  "The
+    // last handle is gone" is therefore only reached once that thread has let go: wait for it (bounded); a leak is
+    // still a leak after the wait.
+    static TIMED_OUT: AtomicBool = AtomicBool::new(false);
+    // (after the first genuine leak in a process the later waits are short, so a leaking tree does not stall the stream)
+    let wait = if TIMED_OUT.load(Ordering::SeqCst) { Duration::from_millis(100) } else { Duration::from_secs(5) };
+    let deadline = std::time::Instant::now() + wait;
+    let pending = |all: &[u32]| all.iter().any(|v| DROPS[*v as usize % NIDS].load(Ordering::SeqCst) == 0);
+    while pending(&all) {
+        if std::time::Instant::now() >= deadline {
+            TIMED_OUT.store(true, Ordering::SeqCst);
+            break;
+        }
+        std::thread::sleep(Duration::from_micros(200));
+    }
     let final_drops = dropped_str();
     format!(
         "H pool={} cols={} unpub={} items={} pats={} scores={} fresh={} alldropped={} ev={}",
